@@ -16,7 +16,6 @@ theorem C09_depths (root : Position) (R : List Nat) (t : List Ev) (s : AState) (
   · rename_i s1 hrun
     split at h <;> try (cases h)
     split at h <;> try (cases h)
-    split at h <;> try (cases h)
     have inv := run_iter t (initState root R) s 0 hrun (init_iter root R)
     have hdesc : ∀ n, (desc n).reverse = List.range' 1 n ∧ ∀ d, d ∈ desc n → 1 ≤ d ∧ d ≤ n := by
       intro n
@@ -52,7 +51,6 @@ theorem C09_searchmoves (root : Position) (searchmoves : List Nat) (t : List Ev)
   split at h
   · cases h
   · rename_i s1 hrun
-    split at h <;> try (cases h)
     split at h <;> try (cases h)
     split at h <;> try (cases h)
     rename_i hlen
